@@ -179,20 +179,27 @@ def crcOff (x : Idx) : Nat := x.nameOff + x.hs * x.n
 def ofsOff (x : Idx) : Nat := x.crcOff + Gen.Pack.v2CrcWidth * x.n
 def largeOff (x : Idx) : Nat := x.ofsOff + Gen.Pack.v2OfsWidth * x.n
 
+/-- The 64-bit table: `unpack_from(">Q", contents, largetable + (v & (2**31 - 1)) * 8)`. -/
+def largeOffsetAt (x : Idx) (v : Nat) : Except Err Nat :=
+  match beAt 8 x.c (x.largeOff + (v % Gen.Pack.largeFlag) * Gen.Pack.largeEntryWidth) with
+  | none => .error .format
+  | some w => .ok w
+
+/-- `PackIndex2/3._unpack_offset(i)`. -/
+def offsetAtV2 (x : Idx) (i : Nat) : Except Err Nat :=
+  match beAt 4 x.c (x.ofsOff + i * Gen.Pack.ofsEntryWidth) with
+  | none => .error .format
+  | some v => if v < Gen.Pack.largeFlag then .ok v else x.largeOffsetAt v
+
+/-- `PackIndex1._unpack_offset(i)`. -/
+def offsetAtV1 (x : Idx) (i : Nat) : Except Err Nat :=
+  match beAt 4 x.c (Gen.Pack.v1TableAt + i * (Gen.Pack.v1EntryExtra + x.hs)) with
+  | none => .error .format
+  | some v => .ok v
+
 /-- `_unpack_offset(i)`; `unpack_from` past the end is `struct.error`. -/
 def offsetAt (x : Idx) (i : Nat) : Except Err Nat :=
-  if x.version = 1 then
-    match beAt 4 x.c (Gen.Pack.v1TableAt + i * (Gen.Pack.v1EntryExtra + x.hs)) with
-    | none => .error .format
-    | some v => .ok v
-  else
-    match beAt 4 x.c (x.ofsOff + i * Gen.Pack.ofsEntryWidth) with
-    | none => .error .format
-    | some v =>
-      if v < Gen.Pack.largeFlag then .ok v
-      else match beAt 8 x.c (x.largeOff + (v - Gen.Pack.largeFlag) * Gen.Pack.largeEntryWidth) with
-        | none => .error .format
-        | some w => .ok w
+  if x.version = 1 then x.offsetAtV1 i else x.offsetAtV2 i
 
 /-- `_unpack_crc32_checksum(i)` (`None` for v1). -/
 def crcAt (x : Idx) (i : Nat) : Except Err (Option Nat) :=
@@ -269,5 +276,17 @@ def nameOfOffset (x : Idx) (off : Nat) : Except Err Bytes :=
     | none => .error .key
 
 end Idx
+
+/-! ## specification vocabulary used by the theorems -/
+
+/-- Entries strictly increasing by name (what `sorted(entries)` gives for distinct names). -/
+def Sorted (es : List IdxEntry) : Prop := es.Pairwise (fun a b => bytesLt a.name b.name = true)
+
+instance (es : List IdxEntry) : Decidable (Sorted es) := by unfold Sorted; infer_instance
+
+/-- Number of entries whose name starts with a byte `≤ b` (what fan-out slot `b` should hold). -/
+def countLe (es : List IdxEntry) (b : Nat) : Nat := (es.filter (fun e => decide (firstByte e.name ≤ b))).length
+
+deriving instance DecidableEq for Except
 
 end Dulwich.PackIndex
